@@ -81,7 +81,24 @@ package keeper
 //@ func (k Keeper) GetSignalTotalPowersByPower
 //@ requires limit <= MaxInt64
 //@ ensures len(result) <= limit
+// every returned entry is the stored, non-zero total of a signal id found in the by-power index
+//@ ensures forall j :: 0 <= j && j < len(result) ==> result[j].Power != 0 && (exists q Bz :: has(Store_feeds, q) && hasprefix(q, types.SignalTotalPowerByPowerIndexKeyPrefix) && stpHas(Store_feeds, str(Store_feeds[q])) && result[j] == stpAt(Store_feeds, str(Store_feeds[q])))
 //@ loop 0: invariant 0 <= i && i <= limit && len(signalTotalPowers) == limit && cap(signalTotalPowers) >= limit
+//@ loop 0: invariant 0 <= itpos(iterator) && itpos(iterator) <= itlen(iterator)
+//@ loop 0: invariant forall j :: 0 <= j && j < i ==> signalTotalPowers[j].Power != 0 && (exists p :: 0 <= p && p < itpos(iterator) && stpHas(Store_feeds, str(itval(iterator, p))) && signalTotalPowers[j] == stpAt(Store_feeds, str(itval(iterator, p))))
+
+// C07: the current feeds are computed from the ranked signal totals: at most MaxCurrentFeeds of them, each an existing
+// non-zero total with exactly its stored power, with the interval given by the interval formula, and only those whose
+// power reaches the power step (interval > 0).
+//@ func (k Keeper) CalculateNewCurrentFeeds
+//@ requires wfTotals(Store_feeds) && feedsParams(Store_feeds).MaxCurrentFeeds <= MaxInt64
+//@ requires feedsParams(Store_feeds).PowerStepThreshold > 0 && feedsParams(Store_feeds).MinInterval > 0 && feedsParams(Store_feeds).MaxInterval > 0
+//@ ensures len(result) <= feedsParams(Store_feeds).MaxCurrentFeeds
+//@ ensures forall j :: 0 <= j && j < len(result) ==> result[j].Power != 0 && stpHas(Store_feeds, result[j].SignalID) && stp(Store_feeds, result[j].SignalID) == result[j].Power
+//@ ensures forall j :: 0 <= j && j < len(result) ==> result[j].Interval > 0 && result[j].Interval == types.CalculateInterval(result[j].Power, feedsParams(Store_feeds).PowerStepThreshold, feedsParams(Store_feeds).MinInterval, feedsParams(Store_feeds).MaxInterval)
+//@ loop 0: invariant len(feeds) <= #i
+//@ loop 0: invariant forall j :: 0 <= j && j < len(feeds) ==> feeds[j].Power != 0 && stpHas(Store_feeds, feeds[j].SignalID) && stp(Store_feeds, feeds[j].SignalID) == feeds[j].Power
+//@ loop 0: invariant forall j :: 0 <= j && j < len(feeds) ==> feeds[j].Interval > 0 && feeds[j].Interval == types.CalculateInterval(feeds[j].Power, params.PowerStepThreshold, params.MinInterval, params.MaxInterval)
 
 // ---- C15 / C20: price submission -----------------------------------------------------------------------------
 //@ spec curFeeds(s Store) types.CurrentFeeds = has(s, types.CurrentFeedsStoreKey) ? dec(types.CurrentFeeds, s[types.CurrentFeedsStoreKey]) : zero(types.CurrentFeeds)
@@ -135,3 +152,57 @@ package keeper
 //@ loop 0: invariant Store_feeds == old(Store_feeds)
 //@ loop 0: invariant forall j :: 0 <= j && j < #i ==> (has(Store_feeds, types.ValidatorPriceListStoreKey(validatorsByPower[j].Address)) ==> has(allValidatorPrices, addrstr(validatorsByPower[j].Address)))
 //@ loop 3: invariant forall j :: 0 <= j && j < len(validatorPriceInfos) ==> validatorPriceInfos[j].Power >= 0
+// price aggregation writes price records only: votes, totals, the current-feed list, validator price lists stay
+//@ ensures forall q Bz :: !iskey(types.PriceStoreKey, q) ==> Store_feeds[q] == old(Store_feeds)[q]
+//@ loop 2: invariant forall q Bz :: !iskey(types.PriceStoreKey, q) ==> Store_feeds[q] == old(Store_feeds)[q]
+//@ loop 3: invariant forall q Bz :: !iskey(types.PriceStoreKey, q) ==> Store_feeds[q] == old(Store_feeds)[q]
+
+// ---- C07: totals follow votes --------------------------------------------------------------------------------
+// power a signal list gives to one signal id (signal ids in a vote are pairwise different, MsgVote.ValidateBasic)
+//@ spec vpow(sigs []types.Signal, id Str, n Int) Int = n <= 0 ? 0 : vpow(sigs, id, n - 1) + (sigs[n-1].ID == id ? sigs[n-1].Power : 0)
+//@ spec voteOf(s Store, v Addr) []types.Signal = has(s, types.VoteStoreKey(v)) ? dec(types.Vote, s[types.VoteStoreKey(v)]).Signals : zero("[]types.Signal")
+//@ spec diffOf(m map[string]int64, id Str) Int = has(m, id) ? m[id] : 0
+//@ spec stp(s Store, id Str) Int = stpHas(s, id) ? stpAt(s, id).Power : 0
+// range assumption: per-signal sums of a voter's old and new powers stay far below 2^63 (powers are bounded by the
+// voter's bonded tokens)
+//@ spec smallPowers(sigs []types.Signal) Bool = (forall j :: 0 <= j && j < len(sigs) ==> 0 <= sigs[j].Power) && (forall id Str, n Int :: 0 <= n && n <= len(sigs) ==> 0 <= vpow(sigs, id, n) && vpow(sigs, id, n) <= T61)
+
+// The voter's stored vote is replaced by the new signals, and the returned map gives, for every signal id, the
+// new power minus the previous power of this voter (ids absent from the map: no change).
+//@ func (k Keeper) UpdateVoteAndReturnPowerDiff
+//@ modifies Store_feeds
+//@ requires smallPowers(signals) && smallPowers(voteOf(Store_feeds, voter))
+//@ ensures Store_feeds == store(remove(old(Store_feeds), types.VoteStoreKey(voter)), types.VoteStoreKey(voter), enc(types.Vote{addrstr(voter), signals}))
+//@ ensures forall id Str :: diffOf(result, id) == vpow(signals, id, len(signals)) - vpow(old(voteOf(Store_feeds, voter)), id, len(old(voteOf(Store_feeds, voter))))
+//@ loop 0: invariant forall id Str :: diffOf(signalIDToPowerDiff, id) == 0 - vpow(prevSignals, id, #i)
+//@ loop 1: invariant forall id Str :: diffOf(signalIDToPowerDiff, id) == vpow(signals, id, #i) - vpow(prevSignals, id, len(prevSignals))
+
+// store invariant: a signal total is filed under its own id, non-negative and far below 2^63
+//@ spec wfTotals(s Store) Bool = forall id Str :: stpHas(s, id) ==> (stpAt(s, id).ID == id && 0 <= stpAt(s, id).Power && stpAt(s, id).Power <= T61)
+
+// C07: a vote is accepted only with at most MaxCurrentFeeds signals and only if the sum of its powers is within the
+// voter's total power (that sum gets locked); it REPLACES the voter's previous vote, and every signal's total moves
+// by exactly (new power - previous power of this voter) - no other total changes - and never ends up negative.
+//@ func (k msgServer) Vote
+//@ modifies Store_feeds, Other
+//@ requires wfTotals(Store_feeds)
+//@ requires bech32ok(msg.Voter) ==> (smallPowers(msg.Signals) && smallPowers(voteOf(Store_feeds, bech32addr(msg.Voter))))
+//@ ensures err == nil ==> bech32ok(msg.Voter) && len(msg.Signals) <= old(feedsParams(Store_feeds)).MaxCurrentFeeds
+//@ ensures err == nil ==> types.psumS(msg.Signals, 0, len(msg.Signals)) <= types.totalPowerOf(old(Other), bech32addr(msg.Voter))
+//@ ensures err == nil ==> voteOf(Store_feeds, bech32addr(msg.Voter)) == msg.Signals
+//@ ensures err == nil ==> (forall id Str :: stp(Store_feeds, id) == old(stp(Store_feeds, id)) + vpow(msg.Signals, id, len(msg.Signals)) - vpow(old(voteOf(Store_feeds, bech32addr(msg.Voter))), id, len(old(voteOf(Store_feeds, bech32addr(msg.Voter))))))
+//@ ensures err == nil ==> (forall id Str :: stp(Store_feeds, id) >= 0)
+//@ loop 0: invariant len(keys) == #i
+//@ loop 0: invariant forall j :: 0 <= j && j < len(keys) ==> has(#visited, keys[j])
+//@ loop 0: invariant forall q Str :: has(#visited, q) ==> (exists j :: 0 <= j && j < len(keys) && keys[j] == q)
+//@ loop 0: invariant forall i, j :: 0 <= i && i < j && j < len(keys) ==> keys[i] != keys[j]
+//@ loop 1: invariant forall id Str :: stp(Store_feeds, id) == old(stp(Store_feeds, id)) + ((exists j :: 0 <= j && j < #i && keys[j] == id) ? diffOf(signalIDToPowerDiff, id) : 0)
+//@ loop 1: invariant forall id Str :: stpHas(Store_feeds, id) ==> (stpAt(Store_feeds, id).ID == id && 0 <= stpAt(Store_feeds, id).Power)
+//@ loop 1: invariant voteOf(Store_feeds, voter) == msg.Signals
+//@ loop 1: invariant forall q Str :: has(signalIDToPowerDiff, q) ==> (exists j :: 0 <= j && j < len(keys) && keys[j] == q)
+
+// resetting prices deletes price records only (iterator loop over the price prefix: body not verified)
+//@ func (k Keeper) DeleteAllPrices
+//@ trusted
+//@ modifies Store_feeds
+//@ ensures forall q Bz :: !iskey(types.PriceStoreKey, q) ==> Store_feeds[q] == old(Store_feeds)[q]
